@@ -74,7 +74,13 @@ fn tails(tier: Tier) -> Vec<(&'static str, Vec<u8>)> {
 }
 
 fn head(names: (&str, &str), te: Option<&str>, cl: Option<usize>, te_first: bool) -> Vec<u8> {
-    let mut s = "POST /b HTTP/1.1\r\nHost: t\r\n".to_string();
+    head_v(names, te, cl, te_first, false)
+}
+
+/// `http10`: an HTTP/1.0 request that asks to keep the connection (so that what follows the
+/// body is still looked at): body framing does not depend on the protocol version
+fn head_v(names: (&str, &str), te: Option<&str>, cl: Option<usize>, te_first: bool, http10: bool) -> Vec<u8> {
+    let mut s = if http10 { "POST /b HTTP/1.0\r\nHost: t\r\nConnection: keep-alive\r\n".to_string() } else { "POST /b HTTP/1.1\r\nHost: t\r\n".to_string() };
     let te_line = te.map(|t| format!("{}: {}\r\n", names.0, t));
     let cl_line = cl.map(|c| format!("{}: {}\r\n", names.1, c));
     if te_first {
@@ -160,6 +166,38 @@ fn cases(tier: Tier) -> &'static Vec<Case> {
                     half_close: true,
                     nontrivial: true,
                 });
+            }
+        }
+        // every framing again on HTTP/1.0 keep-alive requests (the framing rules, including the
+        // precedence of a chunked coding over Content-Length, do not depend on the version)
+        for n in if deep(tier) { vec![0usize, 1, 3, 1024, 1025, 3000] } else { vec![0usize, 3, 1025] } {
+            let body = payload(n);
+            let mut framings: Vec<(String, Vec<u8>)> = Vec::new();
+            let mut m = head_v(CANON, None, Some(n), false, true);
+            m.extend_from_slice(&body);
+            framings.push(("cl".into(), m));
+            let one: Vec<usize> = if n == 0 { vec![] } else { vec![n] };
+            let mut m = head_v(CANON, Some("chunked"), None, true, true);
+            m.extend_from_slice(&chunked(&body, &one, SizeSyntax::Lower));
+            framings.push(("chunked-one".into(), m));
+            for (te_first, cl_val, l) in [
+                (true, n, "te+cl-equal"),
+                (false, n, "cl+te-equal"),
+                (true, n + 7, "te+cl-larger"),
+                (false, if n > 3 { n - 3 } else { n + 2 }, "cl+te-different"),
+            ] {
+                let mut m = head_v(CANON, Some("chunked"), Some(cl_val), te_first, true);
+                m.extend_from_slice(&chunked(&body, &one, SizeSyntax::Lower));
+                framings.push((l.into(), m));
+            }
+            for (fl, msg) in &framings {
+                for (rl, rp) in read_programs(n, tier) {
+                    for (tl, tail) in tails(tier) {
+                        let mut bytes = msg.clone();
+                        bytes.extend_from_slice(&tail);
+                        v.push(Case { label: format!("http10/len{}/{}/{}/tail-{}", n, fl, rl, tl), bytes, read: rp.clone(), half_close: false, nontrivial: n > 0 });
+                    }
+                }
             }
         }
         // bodies after a long history of plain exchanges on the connection
@@ -326,6 +364,9 @@ fn keyer(f: &Failure, j: &Judged) -> String {
     std_key(f, k)
 }
 
+/// clauses of the shared feature product (props/product.rs) that belong to this property
+const PRODUCT_CLAUSES: &[&str] = &["body-bytes", "body-length", "body-eof", "body-overrun"];
+
 impl Check for C03 {
     fn id(&self) -> &'static str {
         "C03"
@@ -334,21 +375,27 @@ impl Check for C03 {
         "exploration"
     }
     fn n_items(&self, tier: Tier) -> u64 {
-        cases(tier).len() as u64
+        cases(tier).len() as u64 + crate::props::product::n_items(tier)
     }
     fn chunk(&self, _tier: Tier) -> u64 {
         16
     }
     fn run_item(&self, idx: u64, tier: Tier, acc: &mut Acc) {
+        let base = cases(tier).len() as u64;
+        if idx >= base {
+            crate::props::product::run_item(idx - base, tier, acc, PRODUCT_CLAUSES);
+            return;
+        }
         let c = &cases(tier)[idx as usize];
         let sc = scenario(c);
         check_scenario(&sc, acc, &JudgeOpts::default(), c.nontrivial, &keyer, &|_| vec![]);
     }
     fn rule(&self, tier: Tier) -> String {
-        format!(
-            "bodies of 1 / 1024 / 1025 / 20000 bytes (declared, chunked) after a history of 64 / 100 / 1024 (thorough: 19 lengths from 63 to 4097) answered exchanges; bodies of 1 MiB+1 (thorough: also 3 MiB+5) declared / chunked by 65536 / chunked in one piece, read by 4096 / 100000 / n+1 / read_to_end; body length {:?} x framing {{Content-Length; chunked with chunkings one/bytewise/cut1/cutlast/cut1024/8k/thirds; Content-Length together with chunked in both header orders with equal and different values; none; Connection: upgrade}} x application read program {:?} (+2 reads after end-of-stream) x following bytes {:?}; plus chunk-size syntax {:?} and header-name/value letter case for lengths <= 1025 with read sizes 1/7/4096; plus every composition of bodies of 1..{} bytes; {} conversations, each on a real connection; bytes obtained, end-of-stream position and stickiness, body_length() and the fate of the following bytes compared with the reference model; non-trivial = body length > 0",
+        let own = format!(
+            "every framing also on HTTP/1.0 keep-alive requests (lengths 0, 3, 1025; thorough 0, 1, 3, 1024, 1025, 3000); bodies of 1 / 1024 / 1025 / 20000 bytes (declared, chunked) after a history of 64 / 100 / 1024 (thorough: 19 lengths from 63 to 4097) answered exchanges; bodies of 1 MiB+1 (thorough: also 3 MiB+5) declared / chunked by 65536 / chunked in one piece, read by 4096 / 100000 / n+1 / read_to_end; body length {:?} x framing {{Content-Length; chunked with chunkings one/bytewise/cut1/cutlast/cut1024/8k/thirds; Content-Length together with chunked in both header orders with equal and different values; none; Connection: upgrade}} x application read program {:?} (+2 reads after end-of-stream) x following bytes {:?}; plus chunk-size syntax {:?} and header-name/value letter case for lengths <= 1025 with read sizes 1/7/4096; plus every composition of bodies of 1..{} bytes; {} conversations, each on a real connection; bytes obtained, end-of-stream position and stickiness, body_length() and the fate of the following bytes compared with the reference model; non-trivial = body length > 0",
             lengths(tier), read_programs(0, tier).iter().map(|x| x.0.clone()).collect::<Vec<_>>(), tails(tier).iter().map(|t| t.0).collect::<Vec<_>>(), ALL_SYNTAX, if full(tier) { 6 } else { 4 }, cases(tier).len()
-        )
+        );
+        format!("{} || {} {:?}", own, crate::props::product::RULE, PRODUCT_CLAUSES)
     }
     fn assumptions(&self) -> Vec<String> {
         vec![
@@ -357,6 +404,10 @@ impl Check for C03 {
         ]
     }
     fn replay(&self, replay: &Value, acc: &mut Acc) {
+        if crate::props::product::is_product_replay(replay) {
+            crate::props::product::replay(replay, acc, PRODUCT_CLAUSES);
+            return;
+        }
         replay_scenario(replay, acc, &JudgeOpts::default(), &keyer, &|_| vec![]);
     }
 }
